@@ -4,7 +4,7 @@ import ast
 
 from .. import AnalysisError
 from ..cfg import ALL_KINDS, NORMAL_KINDS, iter_own
-from ..lib import iteration_paths, attr_stores, dominated_by, guard_forms, key_of, render, type_is, type_name, unlocked_writers
+from ..lib import collections_from, iteration_paths, attr_stores, dominated_by, guard_forms, key_of, render, type_is, type_name, unlocked_writers
 from ..report import describe, rule
 
 P = "C09"
@@ -341,9 +341,15 @@ def c09_7(ctx, r):
     for s in [s for s in ctx.cg.sites_in(cr) if s.constructs == js.qual]:
         kw = {k.arg: k.value for k in s.node.keywords}
         jobs = kw.get("jobs")
-        ok = isinstance(jobs, ast.ListComp) and not jobs.generators[0].ifs and ctx.src(jobs.generators[0].iter) == "jade_config.iter_jobs()"
-        jk = {k.arg: ctx.src(k.value) for k in jobs.elt.keywords} if ok and isinstance(jobs.elt, ast.Call) else {}
-        v = jobs.generators[0].target.id if ok else "x"
+        cols = [c for c in collections_from(ctx, cr, lambda e: ctx.src(e) == "jade_config.iter_jobs()") if c["elt"].startswith("Job(")]
+        # the collection is the `jobs=` argument itself (comprehension) or the local handed to it (loop form)
+        cols = [c for c in cols if (c["form"] == "comprehension" and c["at"] is jobs) or (isinstance(jobs, ast.Name) and c["into"] == jobs.id)]
+        ok = len(cols) == 1 and not cols[0]["conds"]
+        jk = {}
+        if ok:
+            e = ast.parse(cols[0]["elt"], mode="eval").body
+            jk = {k.arg: ast.unparse(k.value) for k in e.keywords}
+        v = "_"
         r.check(ok and jk.get("state") == "JobState.NOT_SUBMITTED" and jk.get("name") == f"{v}.name" and jk.get("blocked_by") == f"{v}.get_blocking_jobs()" and jk.get("cancel_on_blocking_job_failure") == f"{v}.cancel_on_blocking_job_failure",
                 "one status job per configured job: its name, blockers and cancel flag, state not_submitted", key_of(cr, "initial jobs"), s.loc, f"initial job list is `{ctx.src(jobs)[:120] if jobs is not None else None}`",
                 "a job's state only advances not_submitted -> submitted -> done")
@@ -524,3 +530,10 @@ def c09_11(ctx, r):
     from .c13 import c13_4
 
     c13_4(ctx, r)
+
+
+@rule(P, "C09.12", "T8", "a job canceled by the submitter is counted completed in the same update (its result feeds the same pass)", min_obligations=5)
+def c09_12(ctx, r):
+    from .c04 import c04_4
+
+    c04_4(ctx, r)
